@@ -1125,6 +1125,67 @@ func scriptedFaults(t *tr.Trace, r *tr.Rand, dir string) {
 	}
 }
 
+// subgroupOwnDescription: a group is governed by the definition that its NAME
+// designates now.  An automatic subgroup (no file of its own, the parent's
+// rules) that later gets its own file - a stricter capacity, a lock, a time
+// window - obeys that file from then on: the parent's cached rules must not
+// go on admitting people.  Monitors only.
+func subgroupOwnDescription(t *tr.Trace, dir string) {
+	t.History("groupconc", "subgroup-own-description")
+	w := &world{}
+	parent := fmt.Sprintf("par%d", atomic.AddInt64(&fileSeq, 1))
+	users := map[string]interface{}{}
+	for u, role := range baseUsers() {
+		users[u] = map[string]interface{}{"password": passwords[u], "permissions": role}
+	}
+	write := func(name string, m map[string]interface{}) {
+		m["users"] = users
+		b, _ := json.Marshal(m)
+		fn := filepath.Join(dir, name+".json")
+		os.MkdirAll(filepath.Dir(fn), 0700)
+		os.WriteFile(fn+".tmp", b, 0600)
+		n := atomic.AddInt64(&fileSeq, 1)
+		mt := t0.Add(-1000 * time.Hour).Add(time.Duration(n) * time.Second)
+		os.Chtimes(fn+".tmp", mt, mt)
+		os.Rename(fn+".tmp", fn)
+	}
+	write(parent, map[string]interface{}{"auto-subgroups": true, "max-clients": 5})
+	kid := parent + "/kid"
+	join := func(id string, code int) (*fc, error) {
+		c := &fc{w: w, id: id, kickCh: make(chan struct{})}
+		g, err := group.AddClient(kid, c, group.ClientCredentials{Username: creds[code].user, Password: creds[code].pw})
+		if err == nil {
+			c.setGroup(g)
+		}
+		return c, err
+	}
+	a, err := join("a", 2)
+	if err != nil {
+		t.Fail("C10", "harness", "cannot join the automatic subgroup: "+err.Error())
+		return
+	}
+	// the subgroup gets a definition of its own: one client at most
+	write(kid, map[string]interface{}{"max-clients": 1})
+	t.Checked("C10.own_description_applies")
+	if b, err := join("b", 3); err == nil {
+		t.Fail("C10", "own_description_applies", fmt.Sprintf("group %s now has its own definition with max-clients 1 and already has a member, yet a second non-operator was admitted (the parent's cached max-clients 5 was applied)", kid))
+		group.DelClient(b)
+	}
+	// ... and then a lock-out by time window
+	write(kid, map[string]interface{}{"expires": t0.Add(-time.Hour).Format(time.RFC3339)})
+	group.DelClient(a)
+	t.Checked("C10.own_description_applies")
+	if c, err := join("c", 2); err == nil {
+		t.Fail("C10", "own_description_applies", fmt.Sprintf("group %s now has its own definition that expired an hour ago, yet a non-operator was admitted", kid))
+		group.DelClient(c)
+	}
+	os.Remove(filepath.Join(dir, kid+".json"))
+	group.Delete(kid)
+	os.Remove(filepath.Join(dir, parent+".json"))
+	group.Delete(parent)
+	t.Nontrivial("subgroup-own-description")
+}
+
 func runGroup(t *tr.Trace, r *tr.Rand, n int) {
 	log.SetOutput(io.Discard)
 	dir, err := os.MkdirTemp("", "verif-group-")
@@ -1137,6 +1198,7 @@ func runGroup(t *tr.Trace, r *tr.Rand, n int) {
 
 	scripted(t, r, dir)
 	scriptedFaults(t, r, dir)
+	subgroupOwnDescription(t, dir)
 	for hi := 0; hi < n; hi++ {
 		d := randDesc(r)
 		stream := "mixed"
